@@ -50,7 +50,11 @@ func project(sp *spec.Spec, t *spec.Type, v any, view string) (any, bool) {
 		if !in || o[a.Name] == nil {
 			continue
 		}
-		pv, ok := project(sp, a.T, o[a.Name], sub[a.Name])
+		sv, overridden := sub[a.Name]
+		if !overridden && a.T != nil && a.T.K == spec.KUser {
+			sv = a.T.View // view given where the attribute is declared in the type
+		}
+		pv, ok := project(sp, a.T, o[a.Name], sv)
 		if !ok {
 			return nil, false
 		}
